@@ -97,7 +97,7 @@ UNITS = {
     "server": {
         "uses": [],
         "preludes": ["shims/core.rs", "shims/bytes.rs", "shims/env.rs", "shims/io.rs", "shims/cursor.rs"],
-        "specs": ["contracts/spec/hv.rs", "contracts/spec/crlf.rs", "contracts/spec/request.rs", "contracts/spec/lines.rs", "contracts/spec/request_read.rs", "contracts/spec/http.rs", "contracts/spec/lookup.rs", "contracts/spec/cors.rs", "contracts/spec/headers.rs", "contracts/spec/frames.rs", "contracts/spec/app.rs", "contracts/spec/server.rs"],
+        "specs": ["contracts/spec/hv.rs", "contracts/spec/crlf.rs", "contracts/spec/request.rs", "contracts/spec/lines.rs", "contracts/spec/request_read.rs", "contracts/spec/http.rs", "contracts/spec/lookup.rs", "contracts/spec/cors.rs", "contracts/spec/headers.rs", "contracts/spec/frames.rs", "contracts/spec/app.rs", "contracts/spec/server.rs", "contracts/spec/names_status.rs"],
         "sources": [
             SYMBOL_SRC,
             ("src/http/mod.rs", ["struct:Version", "const:VERSION"]),
@@ -121,7 +121,7 @@ UNITS = {
     },
     "request_parse": {
         "preludes": ["shims/core.rs", "shims/bytes.rs", "shims/io.rs", "shims/cursor.rs"],
-        "specs": ["contracts/spec/hv.rs", "contracts/spec/lookup.rs", "contracts/spec/crlf.rs", "contracts/spec/request.rs", "contracts/spec/lines.rs", "contracts/spec/request_read.rs", "contracts/spec/request_gen.rs", "contracts/spec/request_thm.rs"],
+        "specs": ["contracts/spec/hv.rs", "contracts/spec/lookup.rs", "contracts/spec/crlf.rs", "contracts/spec/request.rs", "contracts/spec/lines.rs", "contracts/spec/request_read.rs", "contracts/spec/request_gen.rs", "contracts/spec/request_thm.rs", "contracts/spec/names_request.rs"],
         "sources": [
             SYMBOL_SRC,
             ("src/http/mod.rs", ["struct:Version", "const:VERSION", "struct:HTTP", "fn:HTTP::version_list"]),
@@ -265,7 +265,7 @@ UNITS = {
     },
     "response_parse": {
         "preludes": ["shims/core.rs", "shims/bytes.rs", "shims/cursor.rs"],
-        "specs": ["contracts/spec/hv.rs", "contracts/spec/frames.rs", "contracts/spec/crlf.rs", "contracts/spec/request.rs", "contracts/spec/response_parse.rs", "contracts/spec/lines.rs", "contracts/spec/response_read.rs", "contracts/spec/http.rs", "contracts/spec/response_thm.rs"],
+        "specs": ["contracts/spec/hv.rs", "contracts/spec/frames.rs", "contracts/spec/crlf.rs", "contracts/spec/request.rs", "contracts/spec/response_parse.rs", "contracts/spec/lines.rs", "contracts/spec/response_read.rs", "contracts/spec/http.rs", "contracts/spec/response_thm.rs", "contracts/spec/names_status.rs"],
         "sources": [
             SYMBOL_SRC,
             ("src/http/mod.rs", ["struct:Version", "const:VERSION", "struct:HTTP", "fn:HTTP::version_list:assume"]),
@@ -356,13 +356,19 @@ def owner(unit, f):
     """Which property a failing obligation of a SHARED unit is reported under (None: every property using the unit).
     Every failure has exactly one owner or is reported by all users - nothing is dropped."""
     # the wire names pinned in contracts/spec/names_*.rs (failures there are located outside the extracted code)
-    if f.fn.startswith("<outside") and '@=="' in f.snippet.replace(" ", ""):
+    if f.fn.startswith("<outside") and ('@=="' in f.snippet.replace(" ", "") or ".status_code==" in f.snippet.replace(" ", "")):
         if unit == "cors":
             return ("C11", "C09")
         if unit == "header_list":
             return "C10"
         if unit == "response_gen":
             return ("C05", "C03", "C15")
+        if unit == "response_parse":
+            return "C15"
+        if unit == "server":
+            return "C05"
+        if unit == "request_parse":
+            return "C14"
     if f.fn.startswith("URL::is_path_inside_root") and f.kind == "postcondition" and f.snippet.replace(" ", "").startswith("inside(path@)==>res"):
         return "C02"        # the guard refuses a path that stays inside: files are not served (C02), containment (C01) is intact
     if any(w in f.snippet for w in CONTAINMENT_WORDS) or f.fn.startswith("URL::is_path_inside_root"):
